@@ -375,6 +375,9 @@ pub fn run(ctx: &Ctx) -> Report {
       ("symlink-cycle-followed", Box::new(|sb: &Sandbox| { sb.write("in/d/sub/a", b"alpha"); link(sb, "..", "in/d/sub/up"); }), vec!["--input", "in/d", "--follow-symlinks"], None, 1, vec![]),
       ("root-is-a-link-to-a-file-not-followed", Box::new(|sb: &Sandbox| link(sb, "content", "in/link")), vec!["--input", "in/link"], None, 1, vec![]),
       ("root-is-a-link-to-a-directory-not-followed", Box::new(|sb: &Sandbox| { sb.write("in/d/a", b"alpha"); link(sb, "d", "in/dlink"); }), vec!["--input", "in/dlink"], None, 1, vec![]),
+      ("root-is-a-link-to-a-directory-elsewhere-followed", Box::new(|sb: &Sandbox| { sb.write("store/real/a", b"alpha"); link(sb, "../store/real", "in/dlink"); }), vec!["--input", "in/dlink", "--follow-symlinks"], None, 0, vec!["in/dlink.torrent"]),
+      ("root-is-a-link-to-a-file-elsewhere-followed", Box::new(|sb: &Sandbox| { sb.write("store/real.bin", b"alpha"); link(sb, "../store/real.bin", "in/flink"); }), vec!["--input", "in/flink", "--follow-symlinks"], None, 0, vec!["in/flink.torrent"]),
+      ("root-is-a-link-elsewhere-followed-output-beside-the-link-occupied", Box::new(|sb: &Sandbox| { sb.write("store/real/a", b"alpha"); link(sb, "../store/real", "in/dlink"); sb.write("in/dlink.torrent", b"there"); }), vec!["--input", "in/dlink", "--follow-symlinks"], None, 1, vec![]),
       ("explicit-output-without-torrent-extension", Box::new(|sb: &Sandbox| sb.write("out/out.torrent", b"not to be touched")), vec!["--input", "in/content", "--output", "out/out.bin"], None, 0, vec!["out/out.bin"]),
       ("explicit-output-without-any-extension", Box::new(|_sb: &Sandbox| {}), vec!["--input", "in/content", "--output", "out/plain"], None, 0, vec!["out/plain"]),
       ("existing-output-without-extension-blocks", Box::new(|sb: &Sandbox| sb.write("out/plain", b"there")), vec!["--input", "in/content", "--output", "out/plain"], None, 1, vec![]),
